@@ -75,34 +75,34 @@ PROPS["C07"] = {
 
 _GRAPH_RULE = "generated repositories (1-14 objects quick, up to 40 thorough: shared and repeated subtrees, empty trees, mixed entry kinds and odd modes, byte-arbitrary names incl. 250-350 byte names, git bombs whose expanded counts pass 2^32 and 2^64, blob sizes at 2^32±k / 2^63 / 2^64-1, linear/merge/octopus/multi-root histories, tag chains and tags of every kind) x delivery schedules (driver-like, children-first, referrers-first, random valid, 1 in 40 invalid) through the real sizes.Graph; non-trivial = a valid schedule (invalid ones are compared model-vs-code only)."
 PROPS["C01"] = {
-    "level_text": "Theorems (regenerated code): each record* adds exactly +1/+size/+entries with saturation; the aggregator records every delivered tree exactly once in any order. Correspondence+judge: every census number of the real sizes.Graph equals clamp(census) computed over Nat by the Lean spec.",
+    "level_text": "Theorems (regenerated code): each record* adds exactly +1/+size/+entries with saturation; the aggregator records every delivered tree exactly once in any order. Correspondence+judge: every census number of the real sizes.Graph equals clamp(census) computed over Nat by the Lean spec. The aggregator core of sizes/graph.go is REGENERATED statement by statement (`Gen.Cmds.graphFlows`) and pinned to the reading the model was written against (`GraphCore.graph_core_pinned`); `every_entry_counted`, `finalize_records_once`.",
     "level_note": "Trusted: Lean kernel, go2lean; graph.go is modelled (Agg + Model/Graph) and tied by differential testing; that rev-list delivers exactly the reachable set is git's contract (validated end-to-end, not proved). Whole-run theorem `census_exact` (via `Graph.run_numbers`): for EVERY repository description and EVERY valid schedule the run completes and all census counters are the saturated true totals (non-vacuity: Props/T1 exhibits a concrete valid run). The model it is proved of is tied to graph.go by the graph engine.",
     "technique": "Lean 4 proof over regenerated source + aggregator theorem + differential correspondence with Nat-level spec judge",
-    "modules": ["GitSizer.Props.C01", "GitSizer.Props.T1"], "engines": [{"name": "graph", "quick": 6000, "thorough": 400000, "per_shard": 1500}, {"name": "e2e", "quick": 320, "thorough": 16000, "per_shard": 20}], "rule": _GRAPH_RULE,
+    "modules": ["GitSizer.Props.C01", "GitSizer.Props.T1", "GitSizer.Props.GraphCore"], "engines": [{"name": "graph", "quick": 6000, "thorough": 400000, "per_shard": 1500}, {"name": "e2e", "quick": 320, "thorough": 16000, "per_shard": 20}], "rule": _GRAPH_RULE,
 }
 PROPS["C02"] = {
-    "level_text": "Theorems (regenerated code): AdjustMaxIfNecessary/IfPossible compute max for ALL pairs, record* apply them to commit size, parent count, tree entries, blob size; witness changes iff the maximum does. Judge: the four maxima of the real Graph equal the true maxima, witnesses attain them.",
+    "level_text": "Theorems (regenerated code): AdjustMaxIfNecessary/IfPossible compute max for ALL pairs, record* apply them to commit size, parent count, tree entries, blob size; witness changes iff the maximum does. Judge: the four maxima of the real Graph equal the true maxima, witnesses attain them. `GraphCore.every_entry_counted` (regenerated statements of treeRecord.initialize): each of the four cases of the mode switch increments entryCount exactly once, no `continue`.",
     "level_note": "As C01. Parent counting in ParseCommit is covered under C16 (parsers engine).",
     "technique": "Lean 4 proof over regenerated source + differential correspondence",
-    "modules": ["GitSizer.Props.C02", "GitSizer.Props.T1"], "engines": [{"name": "graph", "quick": 6000, "thorough": 400000, "per_shard": 1500}] + [{"name": "counts", "quick": 12000, "thorough": 1200000, "per_shard": 20000}], "rule": _GRAPH_RULE,
+    "modules": ["GitSizer.Props.C02", "GitSizer.Props.T1", "GitSizer.Props.GraphCore"], "engines": [{"name": "graph", "quick": 6000, "thorough": 400000, "per_shard": 1500}] + [{"name": "counts", "quick": 12000, "thorough": 1200000, "per_shard": 20000}], "rule": _GRAPH_RULE,
 }
 PROPS["C03"] = {
-    "level_text": "Theorems: depthN is the longest parent chain (upper bound for every chain + explicit witness chain) for every DAG; every registered commit's memo = clamp32(depthN) for every schedule the code accepts (induction over the run); history/tag depth are maxima (regenerated). Judge: commit and tag memos and both maxima equal the Nat-level depth tables for every generated DAG and schedule.",
+    "level_text": "Theorems: depthN is the longest parent chain (upper bound for every chain + explicit witness chain) for every DAG; every registered commit's memo = clamp32(depthN) for every schedule the code accepts (induction over the run); history/tag depth are maxima (regenerated). Judge: commit and tag memos and both maxima equal the Nat-level depth tables for every generated DAG and schedule. `GraphCore.commit_depth_over_all_parents` (regenerated statements of RegisterCommit): the depth is computed by ranging over ALL of commit.Parents.",
     "level_note": "As C01; the model has no timestamps, so independence of dates is by construction of the model and checked end-to-end with adversarial dates. Tag depth for arbitrary tag order is a theorem (`tag_memo_is_depth`, aggregator instance); `depth_maxima_exact` gives both maxima for every valid whole run.",
     "technique": "Lean 4 proof (induction over runs, longest-chain characterisation) + differential correspondence",
-    "modules": ["GitSizer.Props.C03", "GitSizer.Props.T1"], "engines": [{"name": "graph", "quick": 6000, "thorough": 400000, "per_shard": 1500}, {"name": "e2e", "quick": 320, "thorough": 16000, "per_shard": 20}], "rule": _GRAPH_RULE,
+    "modules": ["GitSizer.Props.C03", "GitSizer.Props.T1", "GitSizer.Props.GraphCore"], "engines": [{"name": "graph", "quick": 6000, "thorough": 400000, "per_shard": 1500}, {"name": "e2e", "quick": 320, "thorough": 16000, "per_shard": 20}], "rule": _GRAPH_RULE,
 }
 PROPS["C04"] = {
-    "level_text": "Theorems: the regenerated add* methods are joins in a commutative monoid; clamp is a homomorphism from the true Nat algebra; hence for ANY delivery order every finalised tree's memo = clamp(true recursive expansion); recordTree maximises the seven dimensions independently; the code's single pass over a tree's entries in source order equals the model's base fold + subtree loop (`initialize_source_order`); `checkout_maxima_exact`: after every valid whole run each of the seven figures is the saturated maximum over all delivered trees of the true expansion. Judge: all tree memos and the seven maxima of the real Graph equal the clamped Nat expansion.",
+    "level_text": "Theorems: the regenerated add* methods are joins in a commutative monoid; clamp is a homomorphism from the true Nat algebra; hence for ANY delivery order every finalised tree's memo = clamp(true recursive expansion); recordTree maximises the seven dimensions independently; the code's single pass over a tree's entries in source order equals the model's base fold + subtree loop (`initialize_source_order`); `checkout_maxima_exact`: after every valid whole run each of the seven figures is the saturated maximum over all delivered trees of the true expansion. Judge: all tree memos and the seven maxima of the real Graph equal the clamped Nat expansion. `GraphCore.entry_kinds_feed_their_adders` (regenerated statements of treeRecord.initialize): each entry kind feeds its own add* method.",
     "level_note": "As C01. Side conditions stated in TreesOK: entry names shorter than 2^32-1 bytes (F12), blob sizes < 2^64.",
     "technique": "Lean 4 proof (aggregator invariant, monoid homomorphism) over regenerated source + differential correspondence",
-    "modules": ["GitSizer.Props.C04", "GitSizer.Props.T1"], "engines": [{"name": "graph", "quick": 6000, "thorough": 400000, "per_shard": 1500}], "rule": _GRAPH_RULE,
+    "modules": ["GitSizer.Props.C04", "GitSizer.Props.T1", "GitSizer.Props.GraphCore"], "engines": [{"name": "graph", "quick": 6000, "thorough": 400000, "per_shard": 1500}], "rule": _GRAPH_RULE,
 }
 PROPS["C09"] = {
-    "level_text": "Theorems: any two valid delivery orders of the same tree set give identical memos, no record remains, the finalisation log is a permutation of the delivered set; commit memos agree across schedules; saturating sums are permutation-invariant; `whole_run_order_independent`: two valid schedules of the same objects, any orders and interleavings, both complete and give the same 22 numbers. Judge: numbers of the real Graph equal the order-free Nat spec under driver-like, children-first, referrers-first and random schedules.",
+    "level_text": "Theorems: any two valid delivery orders of the same tree set give identical memos, no record remains, the finalisation log is a permutation of the delivered set; commit memos agree across schedules; saturating sums are permutation-invariant; `whole_run_order_independent`: two valid schedules of the same objects, any orders and interleavings, both complete and give the same 22 numbers. Judge: numbers of the real Graph equal the order-free Nat spec under driver-like, children-first, referrers-first and random schedules. `GraphCore.finalize_when_nothing_pending`, `finalize_records_once`, `graph_core_pinned`: the listener/pending core as regenerated from sizes/graph.go is the text the aggregator model was written against.",
     "level_note": "As C01. Storage layout (loose/packed) and root order are checked end-to-end (engine e2e), not proved.",
     "technique": "Lean 4 proof (corollaries of the aggregator theorem) + differential correspondence over schedules",
-    "modules": ["GitSizer.Props.C09", "GitSizer.Props.T1"], "engines": [{"name": "graph", "quick": 6000, "thorough": 400000, "per_shard": 1500}, {"name": "e2e", "quick": 320, "thorough": 16000, "per_shard": 20}], "rule": _GRAPH_RULE,
+    "modules": ["GitSizer.Props.C09", "GitSizer.Props.T1", "GitSizer.Props.GraphCore"], "engines": [{"name": "graph", "quick": 6000, "thorough": 400000, "per_shard": 1500}, {"name": "e2e", "quick": 320, "thorough": 16000, "per_shard": 20}], "rule": _GRAPH_RULE,
 }
 
 PROPS["C11"] = {
